@@ -415,17 +415,16 @@ def explore_object(fam_name, spec, depth, res):
                 else:
                     fresh_text, fresh_effect = fresh_under(vector)
                     acceptable = {fresh_text}
-                    differing = {name for name, a, b in zip(option_names, vector, saved_under) if a != b}
-                    if new_text == text and fam_name == "rules" and differing <= {"hmmdetection_strictness"}:
-                        # hmm detection documents the strictness option as ignored (with a warning) when reusing results
-                        res.buckets["regen:option-changed-accepted"] += 1
-                    elif new_text not in acceptable:
+                    # (hmm detection announces that a different strictness is "ignored" when reusing results, but the rule names
+                    # of the shipped strictness levels differ, so such results are in fact refused; an accepted reuse is therefore
+                    # judged like any other: it has to equal a fresh run under the new settings)
+                    if new_text not in acceptable:
                         res.fail(case, "reinterpreted-under-changed-settings", _first_diff(fresh_text, new_text))
                     else:
                         res.buckets["regen:option-changed-accepted"] += 1
                         if fresh_effect is not None and applied_effect != fresh_effect:
                             res.fail(case, "record-effect-differs-from-fresh-run", K_diff(fresh_effect, applied_effect))
-                state = (new_text, vector, None, vector if fam_name != "rules" else saved_under)
+                state = (new_text, vector, None, vector)
             key = (_digest(state[0]), state[1], state[2], state[3])
             if key not in seen:
                 seen.add(key)
